@@ -6,8 +6,10 @@ package main
 // on the identities the harness reads from the files themselves. Index-metadata codec cases are included.
 
 import (
+	"bufio"
 	"bytes"
 	"context"
+	"encoding/binary"
 	"fmt"
 	"net"
 	"net/http"
@@ -165,10 +167,11 @@ func TestVerif_C10(t *testing.T) {
 	b := vfxDefaultSpec("c10b", 3, seed+1)
 	c := vfxDefaultSpec("c10c", 2, seed+2)
 	c.Variant = 1
-	for _, s := range []*vfxSpec{&a, &b, &c} {
+	z := vfxDefaultSpec("c10z", 0, seed+3) // epoch 0: a recorded 0 must not read as "nothing recorded"
+	for _, s := range []*vfxSpec{&a, &b, &c, &z} {
 		s.NumSlots, s.Gsfa = 12, true
 	}
-	truths, err := vfxBuild([]vfxSpec{a, b, c})
+	truths, err := vfxBuild([]vfxSpec{a, b, c, z})
 	if err != nil {
 		t.Fatalf("setup failed: %v", err)
 	}
@@ -177,7 +180,7 @@ func TestVerif_C10(t *testing.T) {
 			t.Fatalf("setup failed: fixture %s: %s", tr.Spec.Name, tr.BuildErr)
 		}
 	}
-	A, B, C := vc10FilesOf(truths[0]), vc10FilesOf(truths[1]), vc10FilesOf(truths[2])
+	A, B, C, Z := vc10FilesOf(truths[0]), vc10FilesOf(truths[1]), vc10FilesOf(truths[2]), vc10FilesOf(truths[3])
 	work := filepath.Join(vh.OutDir(), "c10work")
 	_ = os.MkdirAll(work, 0o755)
 	// mixed address-index directories
@@ -198,10 +201,33 @@ func TestVerif_C10(t *testing.T) {
 		return d
 	}
 	gsfaVariants := map[string]string{
-		"own": A.Gsfa, "other-epoch": B.Gsfa, "other-car": C.Gsfa,
+		"own": A.Gsfa, "other-epoch": B.Gsfa, "other-car": C.Gsfa, "epoch-zero": Z.Gsfa, "pubkey-index-of-epoch-zero": mix("g8", A.Gsfa, Z.Gsfa),
 		"pubkey-index-of-other-epoch": mix("g1", A.Gsfa, B.Gsfa), "pubkey-index-of-other-car": mix("g2", A.Gsfa, C.Gsfa),
 		"manifest-of-other-epoch": mix("g3", B.Gsfa, A.Gsfa), "manifest-of-other-car": mix("g4", C.Gsfa, A.Gsfa), "none": "",
 	}
+	// a manifest of the format before metadata existed (version 1: magic, version, records): it cannot say which
+	// epoch / CAR it belongs to, so the directory must not be accepted
+	legacy := func(name, from string) string {
+		d := mix(name, from, from)
+		mp := filepath.Join(d, "manifest")
+		data, err := os.ReadFile(mp)
+		if err != nil || len(data) < 16 {
+			t.Fatalf("setup failed: manifest: %v", err)
+		}
+		var meta indexmeta.Meta
+		if err := meta.UnmarshalWithDecoder(bufio.NewReader(bytes.NewReader(data[16:]))); err != nil {
+			t.Fatalf("setup failed: manifest metadata: %v", err)
+		}
+		body := data[16+len(meta.Bytes()):]
+		out := append([]byte(nil), data[:8]...)
+		out = binary.LittleEndian.AppendUint64(out, 1)
+		out = append(out, body...)
+		_ = os.WriteFile(mp, out, 0o644)
+		return d
+	}
+	gsfaVariants["legacy-manifest-v1"] = legacy("g5", A.Gsfa)
+	gsfaVariants["legacy-manifest-v1-of-other-epoch"] = legacy("g6", B.Gsfa)
+	gsfaVariants["legacy-manifest-v1,pubkey-index-of-other-epoch"] = legacy("g7", mix("g7src", A.Gsfa, B.Gsfa))
 	type variant struct {
 		name string
 		f    vc10Files
@@ -226,7 +252,7 @@ func TestVerif_C10(t *testing.T) {
 	others := []struct {
 		name string
 		f    vc10Files
-	}{{"other-epoch", B}, {"other-car", C}}
+	}{{"other-epoch", B}, {"other-car", C}, {"epoch-zero", Z}}
 	// single swaps and pairs
 	for _, o1 := range others {
 		for i, r1 := range roles {
